@@ -188,8 +188,8 @@ PROPS = {
         assumptions=["ordinates zero or of magnitude within [1e-100, 1e100]"],
     ),
     "C11": dict(
-        modules=["GeomVerif.Properties.C11", "GeomVerif.Properties.C11Fold"],
-        n_quick=12000, n_thorough=150000, thorough_seeds=3, min_theorems=5,
+        modules=["GeomVerif.Properties.C11", "GeomVerif.Properties.C11Fold", "GeomVerif.Properties.C11Det"],
+        n_quick=12000, n_thorough=150000, thorough_seeds=3, min_theorems=9,
         rule="every closed triangle on the 4x4 integer grid x every grid point (65536 cases, exhaustive, each run; the thorough tier adds every "
              "closed quadrilateral x every grid point, 1048576 cases) + sampled quadrilaterals + random closed rings of 3..11 vertices (self-"
              "intersecting, horizontal edges, repeated vertices, extra ordinates with arbitrary bits, stride 2..4) on grids 4/6/8/16/2^26 with query "
@@ -198,21 +198,26 @@ PROPS = {
         nontrivial=lambda op, inp: True,
         trusted_base=TB_COMMON + ["modelled: robustdeterminate.SignOfDet2x2 (bit-exact Float mirror), raycrossing counter, robust PointIntersectsLine "
                                   "(bounding box + exact orientation from C10)",
-                                  "the Euclidean main loop of SignOfDet2x2 and the fold over edges are validated by the exact oracle, not yet by a theorem"],
+                                  "proved for exact arithmetic (any ordered field with a floor; ℚ without side conditions): the whole of SignOfDet2x2 including "
+                                  "its Euclidean loop and termination, and the fold over the ring's edges; the float64 run (rounding inside the loop) is tied "
+                                  "to it by the bit-exact mirror and the exact oracle, not by a theorem"],
         assumptions=["ordinates on integer grids up to 2^26 (differences exact) or exactly representable dyadic maps of them; no NaN"],
     ),
     "C12": dict(
-        modules=["GeomVerif.Properties.C12"],
-        n_quick=20000, n_thorough=200000, thorough_seeds=3, min_theorems=3,
+        modules=["GeomVerif.Properties.C12", "GeomVerif.Properties.C12Sound"],
+        n_quick=20000, n_thorough=200000, thorough_seeds=3, min_theorems=7,
         rule="every ordered pair of non-degenerate segments on the 3x3 integer grid (5184 pairs, exhaustive, each run; thorough adds the 4x4 grid, "
-             "57600 pairs) + random pairs on grids 4/8/64/2^20 in seven configurations (random, touching at an endpoint, T-junction, collinear "
-             "overlapping, collinear touching, parallel, collinear disjoint), in either order and direction, half with an arbitrary extra ordinate; a "
+             "57600 pairs) + random pairs on grids 4/8/64/2^20 in eight configurations (random, touching at an endpoint, T-junction, collinear "
+             "overlapping, collinear touching, parallel, collinear disjoint, an axis-parallel segment crossed by a far-reaching one) and long segments "
+             "with a second one starting at a lattice point adjacent to the carrier (determinant +-1, +-2), in either order and direction, half with an arbitrary extra ordinate; a "
              "quarter mapped to moderate floats within +-2 ulps (classification only). Observed: robust type + reported points (bit patterns) and the "
              "non-robust HasIntersection. Oracle: exact rational intersection of the two point sets. non-trivial = all",
         nontrivial=lambda op, inp: True,
         trusted_base=TB_COMMON + ["modelled: RobustLineIntersector (orientation from C10 taken as exact), hcoords, centralendpoint, normalisation, envelope fallback "
                                   "(bit-exact Float mirror), NonRobustLineIntersector's type decision",
-                                  "rounding distance of the computed point is measured against the exact point with tolerance 1e-9*scale (not proved)"],
+                                  "proved for exact arithmetic: NoIntersection <=> disjoint, every reported end point / overlap end lies on both segments, a proper "
+                                  "crossing is answered with the carriers' common point (normalisation cancels, fallback not taken); the rounding distance of the "
+                                  "float computation is measured against the exact point with the bound 16 eps M kappa (not proved)"],
         assumptions=["segments of non-zero length; no NaN"],
     ),
     "C15": dict(
